@@ -875,7 +875,14 @@ func (r *poolRun) opBridgeCallOut(cn string) {
 			return
 		}
 		pc := fix.PrecompileCrosschain()
-		er := r.c.EthTx(u, &pc, fix.PackCrosschain("bridgeCall", cn, refund.Hex(), []common.Address{t.ERC20}, []*big.Int{amt.BigInt()}, to, data, big.NewInt(0), memo), nil, 3_000_000)
+		toks, amts := []common.Address{t.ERC20}, []*big.Int{amt.BigInt()}
+		if r.rng.IntN(4) == 0 && amt.GT(sdkmath.OneInt()) {
+			// the same token named twice (a contract that assembles the list from two sources): the call carries the sum
+			first := sdkmath.NewInt(int64(1 + r.rng.IntN(int(amt.Int64()-1))))
+			toks, amts = []common.Address{t.ERC20, t.ERC20}, []*big.Int{first.BigInt(), amt.Sub(first).BigInt()}
+			r.res.Count("bridge_calls_naming_a_token_twice", 1)
+		}
+		er := r.c.EthTx(u, &pc, fix.PackCrosschain("bridgeCall", cn, refund.Hex(), toks, amts, to, data, big.NewInt(0), memo), nil, 3_000_000)
 		ok, errStr = !er.Failed(), er.VmError()
 	} else {
 		if r.c.Balance(r.c.Ctx, u.Acc(), t.Base).LT(amt) {
@@ -893,8 +900,16 @@ func (r *poolRun) opBridgeCallOut(cn string) {
 		r.sync(cn, op, "newcall")
 		if cr := r.calls[cn][r.maxCall[cn]]; cr != nil && r.c05 {
 			cr.FromMsg = !viaEVM
-			wantTok := fmt.Sprint([]crosschaintypes.ERC20Token{crosschaintypes.NewERC20Token(amt, t.ExtStr(cn))})
-			if cr.Sender != fix.ExtAddr(cn, u.Hex()) || cr.Refund != fix.ExtAddr(cn, refund.Hex()) || cr.To != fix.ExtAddr(cn, to) || fmt.Sprint(cr.Tokens) != wantTok ||
+			// (entries of one contract may be stored merged or one by one: what the call carries is their sum)
+			sum, foreign := sdkmath.ZeroInt(), false
+			for _, tk := range cr.Tokens {
+				if tk.Contract == t.ExtStr(cn) {
+					sum = sum.Add(tk.Amount)
+				} else {
+					foreign = true
+				}
+			}
+			if cr.Sender != fix.ExtAddr(cn, u.Hex()) || cr.Refund != fix.ExtAddr(cn, refund.Hex()) || cr.To != fix.ExtAddr(cn, to) || foreign || !sum.Equal(amt) ||
 				cr.Data != fmt.Sprintf("%x", data) || cr.Memo != fmt.Sprintf("%x", memo) {
 				r.res.Violate("C05/queued-bridge-call-differs-from-request", "%s: stored call %+v", op, *cr)
 			}
@@ -994,12 +1009,12 @@ func (r *poolRun) executeResult(cn string, n, cnn uint64, success bool) {
 			}
 		}
 		r.expectDeltas(op, before, nil)
-		r.sync(cn, op, "call>executed")
+		r.sync(cn, op, "call>executed", fmt.Sprintf("only-call#%d", cnn))
 	} else {
 		// the external execution failed: nothing left the bridge, the caller is refunded
 		r.ext[cn].callDone[cnn] = false // (it never was: a failed external execution moves nothing)
 		r.expectDeltas(op, before, r.callRefundDeltas(cn, cr))
-		r.sync(cn, op, "call>refunded")
+		r.sync(cn, op, "call>refunded", fmt.Sprintf("only-call#%d", cnn))
 	}
 	// the call this result is about is settled by it: it does not stay queued
 	if _, still := r.readStores(cn).calls[cnn]; still {
